@@ -219,9 +219,12 @@ func raceComposite(seed uint64) int {
 }
 
 func raceHTTP(seed uint64) int {
-	addr := freeAddr()
+	addrs := []string{freeAddr(), freeAddr()}
 	mk := func(n int) *httpserver.Config {
 		rt, _ := httpserver.NewRouteFromHandlerFunc("r", "/", func(w http.ResponseWriter, _ *http.Request) { _, _ = w.Write([]byte("x")) })
+		// every second reload also moves the listen address (whatever a runner derives from its address is then
+		// recomputed while the queries below are in flight)
+		addr := addrs[(n/2)%2]
 		c, err := httpserver.NewConfig(addr, httpserver.Routes{*rt}, httpserver.WithDrainTimeout(30*time.Millisecond),
 			httpserver.WithReadTimeout(time.Duration(1000+n%2)*time.Millisecond))
 		must(err)
